@@ -540,4 +540,6 @@ def run(ctx):
               lambda g: g.file.startswith(MODULES + '/http/') or g.file.startswith(MODULES + '/util/'), 'HTTP receive/commit path')
     from tbxlint import progress
     ctx.guard(progress.run_files, ctx, prog, 'C12.R13', ['http/server/request_parser.cpp', 'http/server/server_imp.cpp', 'http/server/context.cpp', 'http/common.cpp', 'http/url.cpp', 'http/request.cpp', 'http/respond.cpp', 'network/tcp_server.cpp'], 'HTTP receive path', floor=1)
+    from rules import C12_replay
+    ctx.guard(C12_replay.r14, ctx, prog)
     return prog
